@@ -1,4 +1,5 @@
 import Proofs.Small
+import Proofs.Resolve
 /-! C04 — webentity resolution. Proved so far: resolving the webentity and resolving the defining prefix
     are two projections of one walk — one succeeds iff the other does, with the library's own error
     otherwise — and the defining prefix is an initial part of the query; the point query answers from
@@ -33,6 +34,26 @@ theorem C04_consistent (s : State) (lru : Bytes) (hne : lruIter lru ≠ [] → T
         exact ⟨h.we, by simp [this]⟩
     · have : h.we ≠ 0 := hi.mpr (by rw [hp]; simp)
       exact ⟨h.we, by simp [this]⟩
+
+/-- LONGEST-PREFIX MATCH: for any LRU (indexed, partially indexed or absent) the resolved webentity is
+    the id of the DEEPEST cell, among the cells of the stem-prefixes of the LRU that exist in the index,
+    that carries one (`pathCells` are exactly those cells, top-down — `pathCells_entries`); 0 ("no
+    webentity", answered as the library's own error) iff none does -/
+theorem C04_resolve {s : State} {t : T} (h : Shape s t) (stems : LRU) (hne : stems ≠ []) :
+    (s.followLru stems).2.we = lastWe ((t.pathCells s stems).map (fun c => (s.cell c.1).we)) :=
+  followLru_we h stems hne
+
+/-- the cells consulted are the nodes of the existing stem-prefixes of the query, in order -/
+theorem C04_path_cells_are_prefixes {s : State} {t : T} (h : Shape s t) (stems : LRU) :
+    ∀ k, k < (t.pathCells s stems).length →
+      (stems.take (k + 1), ((t.pathCells s stems)[k]!).1) ∈ t.entries s [] := by
+  intro k hk
+  have := pathCells_entries (pre := []) h.ord h.nodup stems k hk
+  simpa using this
+
+/-- an indexed LRU is located by the same walk (the three resolution entry points share it) -/
+theorem C04_indexed {s : State} {t : T} (h : Shape s t) (stems : LRU) (hne : stems ≠ []) (b : Nat)
+    (hb : (stems, b) ∈ t.entries s []) : (s.followLru stems).1 = some b := C07_followLru_node h stems hne b hb
 
 /-- failures of both resolutions are the library's own error -/
 theorem C04_errors (s : State) (lru : Bytes) (e : Err) :
